@@ -12,6 +12,7 @@ MO = "abstract_modeling_classes/modeling_object.py"
 MU = "abstract_modeling_classes/modeling_update.py"
 JOB = "core/usage/job.py"
 ST = "core/hardware/storage.py"
+EO = "abstract_modeling_classes/explainable_objects.py"
 J2S = "api_utils/json_to_system.py"
 
 
@@ -169,16 +170,51 @@ def r_chain(E):
         test = next((n for n in ast.walk(outer) if isinstance(n, ast.If)), None)
         if inner is None or test is None or "issubclass" not in norm(test.test):
             res.undecided.append("optimize_mod_objs_computation_chain: slot scan not recognised")
-    # system appended last
+    # system appended last, looked up on *every* object of the chain until one has a system (objects that are being
+    # linked in do not know their system yet: asking one fixed element is not enough)
     res.instances += 1
-    sysapp = [c for c in _calls(fn) if isinstance(c.func, ast.Attribute) and c.func.attr == "append" and "systems[0]" in norm(c)]
+    from ..astutil import fully_expanded
+    sysapp = []
+    for c in _calls(fn):
+        if isinstance(c.func, ast.Attribute) and c.func.attr == "append" and c.args:
+            a = fully_expanded(c.args[0], fn)
+            if isinstance(a, ast.Subscript):
+                # `<x>.systems[0]`, possibly through `(<x>.systems if … else [])[0]`
+                alts = [a.value.body, a.value.orelse] if isinstance(a.value, ast.IfExp) else [a.value]
+                for v in alts:
+                    if isinstance(v, ast.Attribute) and v.attr == "systems":
+                        sysapp.append((c, v.value))
     if not sysapp:
         res.findings.append(Finding("R-CHAIN", "optimize_mod_objs_computation_chain system",
                                     "the system is no longer appended at the end of the recomputation chain: its total "
                                     "footprint is not refreshed after an edit", rel, fn.lineno, fn.name))
-    elif outer is not None and sysapp[0].lineno < outer.lineno:
-        res.findings.append(Finding("R-CHAIN", "optimize_mod_objs_computation_chain system first",
-                                    "the system is appended before the other objects", rel, sysapp[0].lineno, fn.name))
+    else:
+        c, owner = sysapp[0]
+        if outer is not None and c.lineno < outer.lineno:
+            res.findings.append(Finding("R-CHAIN", "optimize_mod_objs_computation_chain system first",
+                                        "the system is appended before the other objects", rel, c.lineno, fn.name))
+        binder = None
+        if isinstance(owner, ast.Name):
+            x = c
+            while x is not None and x is not fn:
+                x = getattr(x, "_parent", None)
+                if isinstance(x, ast.For) and owner.id in {n.id for n in ast.walk(x.target) if isinstance(n, ast.Name)}:
+                    binder = x
+                    break
+                if isinstance(x, (ast.GeneratorExp, ast.ListComp)):
+                    g = next((g for g in x.generators if owner.id in {n.id for n in ast.walk(g.target) if isinstance(n, ast.Name)}), None)
+                    if g is not None:
+                        binder = g
+                        break
+        if binder is None:
+            if isinstance(owner, ast.Subscript) or isinstance(owner, ast.Name):
+                res.findings.append(Finding(
+                    "R-CHAIN", "optimize_mod_objs_computation_chain system lookup",
+                    f"the system to recompute is looked up on one fixed object (`{norm(owner)[:50]}`) instead of the first "
+                    f"object of the chain that has one: when that object is only being linked in (it has no system yet) "
+                    f"the system is not appended and its total footprint keeps its pre-edit value", rel, c.lineno, fn.name))
+            else:
+                res.undecided.append("optimize_mod_objs_computation_chain: cannot tell which object the system is taken from")
     # 5. the value chain and the object chain are both used
     rel, fn = pm.find_function(MU, "ModelingUpdate.generate_optimized_attr_updates_chain")
     res.instances += 1
@@ -190,6 +226,9 @@ def r_chain(E):
             "R-CHAIN", "generate_optimized_attr_updates_chain sources",
             "the values to recompute no longer combine the chain of the recomputed objects (link edits) with the "
             "descendants of the edited values (numeric edits)", rel, fn.lineno, fn.name))
+    for f in res.findings:
+        f.extra = dict(f.extra or {})
+        f.extra.setdefault("clauses", ["system", "order"] if " system" in f.key else ["order"])
     res.samples = [{"function": "ExplainableObject.attr_updates_chain", "append_guard": "all(ancestors among descendants added)"}]
     res.floor = 6
     return res
@@ -255,6 +294,16 @@ def r_simdate(E):
             "simulation_date" in norm(inner.comparators[0]) and "max" in norm(inner.comparators[1])
         if not good:
             res.undecided.append(f"compute_hourly_quantities_to_filter: period test `{norm(t)[:60]}` not recognised")
+        # every normal exit has passed the period test (no early return that skips it)
+        from ..paths import enumerate_paths
+        skip = [p for p in enumerate_paths(fn, lambda n: n is per[0]) if p.end != "raise"
+                and not any(tt is per[0].test for tt, _ in p.conds)]
+        if skip:
+            cond = " and ".join(("" if pol else "not ") + "(" + norm(tt)[:60] + ")" for tt, pol in skip[0].conds)
+            res.findings.append(Finding(
+                "R-SIMDATE", "period check skipped on a path",
+                f"compute_hourly_quantities_to_filter returns without testing the simulation date against the modelled "
+                f"period when `{cond[:150]}`: on that path a date outside the period is accepted", rel, fn.lineno, fn.name))
     rel, fn = pm.find_function(MU, "ModelingUpdate.__init__")
     res.instances += 1
     naive = [n for n in ast.walk(fn) if isinstance(n, ast.If) and "tzinfo is None" in norm(n.test)
@@ -276,6 +325,26 @@ def r_delay(E):
     res.instances += 1
     outer = next((n for n in ast.walk(fn) if isinstance(n, ast.For) and norm(n.iter).endswith(".uj_steps")), None)
     if outer is None:
+        # the steps must be enumerated from the list link itself (order and multiplicity): a loop whose step variable
+        # comes out of a dict / set keyed by the step visits a step listed twice only once
+        from ..astutil import fully_expanded
+        for loop in [n for n in ast.walk(fn) if isinstance(n, ast.For)]:
+            tnames = {x.id for x in ast.walk(loop.target) if isinstance(x, ast.Name)}
+            walks_jobs = any(isinstance(i, ast.For) and isinstance(i.iter, ast.Attribute) and i.iter.attr == "jobs"
+                             and isinstance(i.iter.value, ast.Name) and i.iter.value.id in tnames for i in ast.walk(loop))
+            if not walks_jobs:
+                continue
+            it = fully_expanded(loop.iter, fn)
+            keyed = (isinstance(it, ast.Call) and isinstance(it.func, ast.Attribute) and it.func.attr in ("items", "keys")) \
+                or (isinstance(it, ast.Call) and isinstance(it.func, ast.Name) and it.func.id in ("set", "frozenset", "dict")) \
+                or isinstance(it, (ast.Dict, ast.DictComp, ast.Set, ast.SetComp))
+            if keyed:
+                res.findings.append(Finding(
+                    "R-DELAY", "steps enumerated from a keyed collection",
+                    f"the journey's steps are taken from `{norm(loop.iter)[:60]}` (keys of a dict / set) instead of the "
+                    f"uj_steps list: a step listed twice in the journey is visited once, with the delay of its last "
+                    f"position — its jobs' occurrences are under-counted", rel, loop.lineno, fn.name))
+                return res
         res.undecided.append("no loop over uj_steps")
         return res
     step = norm(outer.target)
@@ -371,7 +440,41 @@ def r_cumul(E):
         res.findings.append(Finding("R-CUMUL", "delta terms", f"the storage delta is built from {sorted(terms)}"
                                     f"{' with a subtraction' if subs else ''}: it must add the replicated writes, the "
                                     f"(negative) deletions and the (negative) expiries", rel, fn.lineno, fn.name))
-    res.floor = 3
+    # retention: data expires no earlier than the end of its storage duration, so the shift of the dumps rounds the
+    # duration *up* to whole hours (rounding down frees space, and instances, up to an hour too early)
+    rel, fn = pm.find_function(ST, "Storage.automatic_storage_dumps_after_storage_duration")
+    res.instances += 1
+    from ..astutil import fully_expanded
+
+    def rounding_of(expr, f):
+        t = norm(fully_expanded(expr, f))
+        ups = ("math.ceil(", "np.ceil(")
+        downs = ("math.floor(", "np.floor(", "int(", "round(", "//")
+        if any(u_ in t for u_ in ups) and not any(d in t for d in downs):
+            return "up"
+        if any(d in t for d in downs):
+            return "down"
+        return None
+    verdict = None
+    for c in _calls(fn):
+        if isinstance(c.func, ast.Attribute) and c.func.attr == "shift":
+            amount = next((k.value for k in c.keywords if k.arg == "periods"), c.args[0] if c.args else None)
+            if amount is not None and "data_storage_duration" in norm(fully_expanded(amount, fn)):
+                verdict = rounding_of(amount, fn)
+        if isinstance(c.func, ast.Attribute) and c.func.attr == "return_shifted_hourly_quantities" and c.args \
+                and "data_storage_duration" in norm(fully_expanded(c.args[0], fn)):
+            relh, h = pm.find_function(EO, "ExplainableHourlyQuantities.return_shifted_hourly_quantities")
+            sh = next((x for x in _calls(h) if isinstance(x.func, ast.Attribute) and x.func.attr == "shift"), None)
+            verdict = rounding_of(sh.args[0], h) if sh is not None and sh.args else None
+    if verdict == "down":
+        res.findings.append(Finding(
+            "R-CUMUL", "retention rounded down",
+            "the expiry of stored data is shifted by the storage duration rounded *down* to whole hours: with a duration "
+            "that is not a whole number of hours data is dumped before its retention ends, and the cumulative need (and "
+            "the instances provisioned for it) is too low for data that must still be kept", rel, fn.lineno, fn.name))
+    elif verdict is None:
+        res.undecided.append("automatic_storage_dumps_after_storage_duration: rounding of the storage duration not recognised")
+    res.floor = 4
     return res
 
 
@@ -1276,5 +1379,43 @@ def r_attach(E):
                     f"{q} only detaches the previous value when `{norm(t)[:80]}`: a previous value of the excluded kind "
                     f"(an empty result that has ancestors) stays registered as child of its ancestors after it was "
                     f"replaced, and the replacement is refused as a duplicate", rel, g.lineno, q))
-    res.floor = 2
+    # the attach primitive itself: every path that attaches (new container not None) registers the value on each of
+    # its direct ancestors, every path that had a container deregisters first — no early exit in between (the
+    # replace primitive relies on the second, seemingly redundant, attach to re-register a dict entry whose twin with
+    # the same id was just deregistered)
+    rel, fn = pm.find_function(EB, "ExplainableObject.set_modeling_obj_container")
+    res.instances += 1
+    from ..paths import enumerate_paths, path_formula, consistent, parse
+    ps = [a.arg for a in fn.args.args]
+
+    def edge_loop(stmt, meth):
+        return isinstance(stmt, ast.For) and "direct_ancestors_with_id" in norm(stmt.iter) and any(
+            isinstance(c.func, ast.Attribute) and c.func.attr == meth for c in _calls(stmt))
+    is_ev = lambda n: isinstance(n, ast.For) or (isinstance(n, ast.Call) and isinstance(n.func, ast.Attribute)
+                                                 and n.func.attr == "set_modeling_obj_container")
+    attaching = parse(f"{ps[1]} is not None")
+    had = parse(f"{ps[0]}.modeling_obj_container is not None")
+    for path in enumerate_paths(fn, is_ev):
+        if path.end == "raise":
+            continue
+        pf = path_formula(path.conds, fn)
+        adds = any(edge_loop(s_, "add_child_to_direct_children_with_id") for st in path.stmts for s_ in ast.walk(st))
+        rems = any(edge_loop(s_, "remove_child_from_direct_children_with_id") for st in path.stmts for s_ in ast.walk(st))
+        cond = " and ".join(("" if pol else "not ") + "(" + norm(t)[:60] + ")" for t, pol in path.conds)
+        if consistent(pf, attaching) and not adds:
+            res.findings.append(Finding(
+                "R-ATTACH", "set_modeling_obj_container path without registration",
+                f"ExplainableObject.set_modeling_obj_container has a path (`{cond[:150]}`) on which a value is attached "
+                f"to a container without being registered as child of its direct ancestors: the dependency is then "
+                f"listed on one end only and edits of the ancestor no longer reach it", rel, fn.lineno,
+                "ExplainableObject.set_modeling_obj_container"))
+            break
+        if consistent(pf, had) and not rems:
+            res.findings.append(Finding(
+                "R-ATTACH", "set_modeling_obj_container path without deregistration",
+                f"ExplainableObject.set_modeling_obj_container has a path (`{cond[:150]}`) on which a value that had a "
+                f"container is re-attached / detached without being removed from its ancestors' children", rel,
+                fn.lineno, "ExplainableObject.set_modeling_obj_container"))
+            break
+    res.floor = 3
     return res
